@@ -45,6 +45,19 @@ META = {
 }
 
 
+class LegacySeq:
+    """A sequence in the old protocol: indexable and sized, no __iter__."""
+
+    def __init__(self, items):
+        self._items = list(items)
+
+    def __len__(self):
+        return len(self._items)
+
+    def __getitem__(self, i):
+        return self._items[i]
+
+
 class GModel(Core.Model):
     def __init__(self, a, b=0):
         super().__init__(seed=1)
@@ -116,7 +129,7 @@ def run_search(case, cache=None):
     if src:
         vals = list(params['a'])
         given['a'] = {'generator': (v for v in vals), 'map': map(int, vals), 'iter': iter(vals),
-                      'range': range(1, len(vals) + 1), 'tuple': tuple(vals)}[src]
+                      'range': range(1, len(vals) + 1), 'tuple': tuple(vals), 'legacy': LegacySeq(vals)}[src]
     reps, mode = case['reps'], ScoreMode(case['mode'])
     flat = case['table']
     conv = float if case.get('float') else (lambda v: v)
@@ -149,6 +162,11 @@ def run_search(case, cache=None):
             raise Violation(f'{what}: result {i} records differ from the individual scores', expected=table[c],
                             observed=res['records'])
         ex = exact(table[c], mode)
+        if int(mode) in (0, 1, 4, 5) and all(type(v) is int for v in table[c]) and \
+                (type(res['score']) is not int or res['score'] != ex):
+            # minimum, maximum and sum of Python ints are exact Python ints (no rounding is involved anywhere)
+            raise Violation(f'{what}: result {i} aggregate of all-int records is not their exact {mode.name}',
+                            expected=str(ex), observed=repr(res['score']))
         if not same_number(res['score'], ex):
             raise Violation(f'{what}: result {i} aggregate differs from the exact {mode.name}', expected=str(ex),
                             observed=repr(res['score']))
@@ -270,13 +288,37 @@ def tally_score(model):
     return TallyModel.tally * 1000 + int(sum(model.draws) * 100)
 
 
+class InnerModel(Core.Model):
+    def __init__(self, k):
+        super().__init__(seed=1)
+        self.k = k
+        self.complete()
+
+
+def inner_score(model):
+    return 7 + model.k
+
+
+def nested_score(model):
+    """The score of an outer combination is itself obtained by a small search (re-entrant use of the search)."""
+    best, results = Batching.grid_search(InnerModel, {'k': [2, 1, 3]}, inner_score, repetitions=1, mode=ScoreMode.MIN)
+    return 100 * model.a + best['score']
+
+
 def traits_case(case):
     reset_library()
     procs, oc = case['procs'], case.get('outcome')
     if procs != 1:
         sched.install(Batching, (tuple(tuple(w) for w in oc[0]), tuple(oc[1])) if oc else None, sched.WorkerCache())
     try:
-        if case['what'] == 'name':
+        if case['what'] == 'nested':
+            params = {'a': [3, 1, 2]}
+            reps = 2
+            best, results = Batching.grid_search(GModel, params, nested_score, processes=procs, repetitions=reps,
+                                                 mode=ScoreMode.MIN_SUM)
+            cs = [{'a': a} for a in (3, 1, 2)]
+            exp = [100 * c['a'] + 8 for c in cs]
+        elif case['what'] == 'name':
             n = case['name']
             params = {n: [3, 1, 2], 'a': [10, 20]}
             best, results = Batching.grid_search(KwModel, params, kw_score, processes=procs, max_timesteps=3,
@@ -321,6 +363,9 @@ def traits_cases():
         yield {'leg': 'traits', 'what': 'name', 'name': n, 'procs': 1}
         for oc in ocs:
             yield {'leg': 'traits', 'what': 'name', 'name': n, 'procs': 2, 'outcome': oc}
+    yield {'leg': 'traits', 'what': 'nested', 'procs': 1}
+    for oc in sched.outcomes(3, 2):
+        yield {'leg': 'traits', 'what': 'nested', 'procs': 2, 'outcome': [list(map(list, oc[0])), list(oc[1])]}
     yield {'leg': 'traits', 'what': 'tally', 'procs': 1}
     for oc in sched.outcomes(3, 2):
         yield {'leg': 'traits', 'what': 'tally', 'procs': 2, 'outcome': [list(map(list, oc[0])), list(oc[1])]}
@@ -482,8 +527,17 @@ def serial_cases(tier):
         for flat in itertools.product(mix, repeat=nc):
             for mode in range(6):
                 yield {'leg': 'serial_mixed', 'shape': name, 'reps': 1, 'mode': mode, 'table': list(flat)}
+    # several repetitions whose records are equal in value across combinations but differ in type (ints / floats):
+    # every combination's aggregate is computed from ITS records
+    big = 2 ** 53 + 2
+    rows = [[float(big)] * 3, [big] * 3, [1.0, 1.0, 1.0], [1, 1, 1], [0.0, 0.0, 0.0], [0, 0, 0]]      # floats first
+    for r1 in rows:
+        for r2 in rows:
+            if r1 is not r2:
+                for mode in range(8):
+                    yield {'leg': 'serial_typed_rows', 'shape': '2', 'reps': 3, 'mode': mode, 'table': r1 + r2}
     # parameter values given as one-shot iterables (generator, map, iterator): each value still evaluated once
-    for src in ('generator', 'map', 'iter', 'range', 'tuple'):
+    for src in ('generator', 'map', 'iter', 'range', 'tuple', 'legacy'):
         for mode in (0, 1):
             for flat in ([3, 1, 2], [1, 2, 3], [2, 3, 1]):
                 yield {'leg': 'serial_sources', 'shape': '3', 'reps': 1, 'mode': mode, 'table': flat, 'source': src}
@@ -572,10 +626,14 @@ AMBIENT_LEGS = True
 
 def run(ctx):
     ser = list(serial_cases(ctx.tier))
+    # cases that carry their whole story in one search first: a stale cache filled by EARLIER searches of the same
+    # process makes later cases fail in a way that cannot be replayed on its own
+    ser.sort(key=lambda c: c['leg'] not in ('serial_typed_rows', 'serial_mixed'))
     sc = list(sched_cases())
     pr = list(pool_reuse_cases())
     lim = list(limit_cases()) + [{'leg': 'reused_list', 'procs': 1}, {'leg': 'source_dict', 'procs': 1}] + list(traits_cases())
-    allc = lim + ser + sc
+    first = [c for c in ser if c['leg'] == 'serial_typed_rows'] + [c for c in ser if c['leg'] == 'serial_mixed']
+    allc = first + lim + [c for c in ser if c['leg'] not in ('serial_typed_rows', 'serial_mixed')] + sc
     if ctx.small:      # reduced: limits, traits, the 2- and 3-combination serial tables, no schedules
         allc = lim + [c for c in ser if c['shape'] in ('2', '3') and c['reps'] == 1]
     size = max(1, len(allc) // (ctx.procs * 4))
